@@ -128,6 +128,8 @@ def gen_case(rnd, kind, cid, maxops, stats, allow_ttl0=True, probe_every=True):
             now += rnd.choice([1, 1000, MS // 2, MS, 3 * MS, 20 * MS])
         elif not timed and r < 0.2:
             now += rnd.choice([1, MS])
+        if probe_every and timed and lines and not lines[-1].startswith("probe %d" % now) and not lines[-1].startswith("case"):
+            lines.append("probe %d" % now)   # the state as seen at the new instant, before the call
         name = rnd.choices(names, weights=ws)[0]
         stats["ops"][name] = stats["ops"].get(name, 0) + 1
         if name == "insert":
